@@ -1263,7 +1263,9 @@ class disasmEngine(object):
                 break
 
             lines_cpt += 1
-            if self.lines_wd is not None and lines_cpt > self.lines_wd:
+            if (self.lines_wd is not None and lines_cpt > self.lines_wd and
+                not in_delayslot):
+                # Never cut a block between a branch and its delay slot
                 log_asmblock.debug("lines watchdog reached at %X", int(offset))
                 break
 
